@@ -35,7 +35,14 @@ fn gen_regex(t: &mut Tape) -> String {
     }
     if t.chance(1, 12) {
         // assertion arms: reach the run-time empty-match error and restart-context behaviour
-        re = format!("{}{}", *t.pick(&["\\b", "^", "\\B"]), if t.chance(1, 2) { re } else { String::new() });
+        let assertion = *t.pick(&["\\b", "^", "\\B"]);
+        re = match t.weighted(&[2, 2, 1, 1]) {
+            0 => format!("{}{}", assertion, re),
+            1 => assertion.to_string(),
+            // an empty match that depends on the context: possible only after some progress
+            2 => format!("{}|{}", re, assertion),
+            _ => format!("{}(?:{})*", assertion, re),
+        };
     }
     re
 }
